@@ -155,6 +155,54 @@ def tagged_rerun_case(args):
         sc.close()
 
 
+def dir_output_rerun_case(args):
+    """a task whose declared output is a directory (FinalizePaths renames files and directories alike): when the workflow is run
+    again in place the directory exists, so the command is not executed, nothing changes, downstream still proceeds"""
+    seed, i = args
+    rng = random.Random(seed * 15485927 + i)
+    sp = t3.Spec(maxtasks=rng.randint(1, 3), bufsize=rng.choice([1, 128]))
+    L = rng.randint(1, 3)
+    paths = ["d%d.txt" % j for j in range(L)]
+    for p in paths:
+        sp.files[p] = p + "\n"
+    s = sp.src("src", paths)
+    a = sp.proc(t3.RawProc("unpack", "echo unpack {i:a} >> ../ran.log && mkdir {o:parts} && cp {i:a} {o:parts}/part1.txt && echo extra > {o:parts}/part2.txt",
+                           ins=[("a", [(s, "out")])], outs=[("parts", "{i:a}.parts")]))
+    sp.proc(t3.RawProc("collect", "echo collect {i:d} >> ../ran.log && cat {i:d}/part1.txt {i:d}/part2.txt > {o:o}", ins=[("d", [(a, "parts")])], outs=[("o", "{i:d}.collected")]))
+    sc = t3.Scratch()
+    try:
+        sc.plant(sp.files)
+        r1 = t3.run_impl(sc, sp)
+        problems = []
+        if r1["rc"] != 0 or not r1["returned"]:
+            problems.append(("unexpected-failure", r1["stderr"][-200:]))
+        else:
+            def stamp(fs):
+                return {p: (v[0], v[2], v[3], v[1]) for p, v in fs.items() if not t3.IGNORED.match(p) and not p.endswith(".audit.json") and p != "ran.log"}
+            before = stamp(r1["fs"])
+            ran1 = r1["fs"]["ran.log"][1] if "ran.log" in r1["fs"] else ""
+            # sometimes the final outputs are removed first: the directory-valued ones must still be taken from disk
+            if i % 2:
+                for p in paths:
+                    os.remove(os.path.join(sc.work, p + ".parts.collected"))
+            r2 = t3.run_impl(sc, sp)
+            ran2 = (r2["fs"]["ran.log"][1] if "ran.log" in r2["fs"] else "")[len(ran1):]
+            if r2["rc"] != 0 or not r2["returned"]:
+                problems.append(("rerun-fails", "re-running the workflow whose directory-valued outputs exist exits %s: %s" % (r2["rc"], r2["stderr"][-200:])))
+            if "unpack" in ran2:
+                problems.append(("rerun-executes", "the command of a task whose (directory-valued) output exists was executed again: %s" % ran2.split("\n")[:2]))
+            after = stamp(r2["fs"])
+            ch = [p for p in before if ".parts" in p and not p.endswith(".collected") and before[p] != after.get(p)]
+            if ch:
+                problems.append(("existing-output-modified", "existing directory-valued outputs changed on re-run: %s" % ch[:3]))
+            if t3.leftovers(r2["fs"]):
+                problems.append(("rerun-leftovers", "temp dirs left after the re-run: %s" % t3.leftovers(r2["fs"])[:2]))
+        return {"spec": sp.text(), "bufsize": sp.bufsize, "problems": problems[:3], "ntasks": 2 * L, "nskip": L, "rc": r1["rc"], "stderr": r1["stderr"][-200:],
+                "yield": None, "wall": r1["wall"], "gofunc": 0}
+    finally:
+        sc.close()
+
+
 def run(rep, tier, seed):
     proved = vlib.prove(rep, MODULE, THEOREMS)
     ok, msg = vlib.build_ocaml()
@@ -163,12 +211,13 @@ def run(rep, tier, seed):
     n = 100 if tier == "quick" else 2000
     results = [r for r in t3.run_many(case, [(seed, i) for i in range(n)]) if r]
     results += [r for r in t3.run_many(interrupted_case, [(seed, i) for i in range(n // 4)]) if r]
+    results += t3.run_many(dir_output_rerun_case, [(seed, i) for i in range(n // 12)])
     results += [r for r in t3.run_many(tagged_rerun_case, [(seed, i) for i in range(n // 10)]) if r]
     results += t3.run_many(ks.ks_case, [(seed, i, ("rerun",)) for i in range(n // 8)])
     t3.report_t3(rep, MODULE, proved, results, "T3 planted outputs / re-run")
     rep.cov["evaluations"] = len(results) * 2
     rep.cov["distinct_nontrivial"] = len({r["spec"] for r in results if r["nskip"] >= 1})
-    rep.cov["rule"] = "random workflows (shell and Go-function processes); the outputs of a random subset of tasks are pre-created with arbitrary bytes; run on the real library: file set and bytes equal the model's prediction computed from the planted bytes, no command of a skipped task in the trace, (inode, mtime-ns, bytes) of planted files unchanged; then the completed workflow is run again in place: no command, no file changed; workflows in which a fanned-out port feeds a tagging component and a process whose output name depends on the tags are run twice in place (no command, no new or changed file in the second run); non-trivial = at least one task skipped"
+    rep.cov["rule"] = "random workflows (shell and Go-function processes); the outputs of a random subset of tasks are pre-created with arbitrary bytes; run on the real library: file set and bytes equal the model's prediction computed from the planted bytes, no command of a skipped task in the trace, (inode, mtime-ns, bytes) of planted files unchanged; then the completed workflow is run again in place: no command, no file changed; workflows with directory-valued outputs run twice in place; workflows in which a fanned-out port feeds a tagging component and a process whose output name depends on the tags are run twice in place (no command, no new or changed file in the second run); non-trivial = at least one task skipped"
     rep.cov["rule"] += "; plus kitchen-sink workflows (tools/ks.py: random workflows decorated with tagging components, sub-streams, Concatenator / FileSplitter, streamed pairs, component parameter feeders, Go-function and multi-core processes, RunTo) judged by the model-free re-run oracle"
     rep.cov["samples"] = [results[0]["spec"]]
     rep.notes["input_distribution"] = {"runs": len(results), "tasks": sum(r["ntasks"] for r in results), "skipped_tasks": sum(r["nskip"] for r in results),
